@@ -5,16 +5,20 @@ import CaoProofs.Lemmas.CaptureRun
 /-!
 # C04c — the capture assertions of `RegisterUpvalue` in runs of COMPILED programs
 
-## 1. The statement "compiled programs never reach the capture assertions" is false as it stands
+## 1. The former counterexample (K9) no longer reaches the capture assertions
 
 `abortInCallback`: `main` binds a local `x` and a closure `f`; `f` passes the function `h` to the host
 function `papply` (which calls it back through `run_function`), then creates a closure that captures
 `x` — a non-local capture (`RegisterUpvalue 0 0`), since `x` is an upvalue of `f`.  `h` is `abort`.
 
-`Exit` inside the callback makes the nested dispatch loop return normally; `run_function` then pops only
-one of the two frames it pushed (the Rust does the same: `vm.rs`, "pop the trap callframe"), so `h`'s
-frame — with no closure — stays on the call stack and `f` continues under it.  The non-local capture
-then finds no closure in the running frame: `panic "closure not found for capture"`.
+`Exit` inside the callback makes the nested dispatch loop return normally.  BEFORE the repair of
+`run_function`, it then popped only one of the two frames it had pushed, so `h`'s frame — with no
+closure — stayed on the call stack and `f` continued under it; the non-local capture then found no
+closure in the running frame: `panic "closure not found for capture"` (K9, a consequence of K6).
+`run_function` now pops the call stack back to its entry depth however the callee ended, `f`
+continues under its own frame, the capture succeeds and the run ends normally
+(`abort_in_callback_no_longer_panics`).  The statement "compiled programs never reach the capture
+assertions" (`compiled_run_no_capture_panic_Full`) is therefore no longer refuted; it is open.
 
 The program is compiled, accepted by the checker (`Bytecode.WF`), satisfies all hypotheses of
 `C10b.compile_wf`, and is run from a fresh machine.
@@ -77,16 +81,17 @@ theorem ac_labelLog : labelLog abortInCallback stdE Gen.recursionLimit = labelsO
   rw [ac_ir]
   rfl
 
-/-- does the run of a compiled module from a fresh machine end in the capture panic? -/
-def capturePanics (r : Except CErr Program) : Bool :=
+/-- does the run of a compiled module from a fresh machine end without an error, with an empty call
+    stack, after 21 dispatched instructions? -/
+def endsNormally (r : Except CErr Program) : Bool :=
   match r with
   | .error _ => false
   | .ok p =>
-    match (run (Prog.ofProgram p) 10000 (VmState.fresh {})).2 with
-    | some e => (match e.kind with | .panic w => w == "closure not found for capture" | _ => false)
-    | none => false
+    match run (Prog.ofProgram p) 10000 (VmState.fresh {}) with
+    | (s', none) => s'.frames.length == 0 && s'.dispatches == 21
+    | (_, some _) => false
 
-theorem ac_panics_check : capturePanics (compile abortInCallback stdE) = true := by
+theorem ac_ends_check : endsNormally (compile abortInCallback stdE) = true := by
   rw [ac_compile]
   decide +kernel
 
@@ -131,32 +136,38 @@ theorem ac_hyps : ∃ p, compile abortInCallback stdE = .ok p ∧ p.bytecode.siz
     have hd := LabelHandlesDistinct.closure (functional_of_pairwise _ h4) p
     exact ⟨p, hp, h1, h2, hentry, hd, compile_wf hp h1 h2 hentry hd⟩
 
-/-- **`abort_in_callback_reaches_capture_panic`**: a compiled program that satisfies every hypothesis
-of `C10b.compile_wf` (so it is `Bytecode.WF`), run from a fresh machine, reports
-`panic "closure not found for capture"` — an `abort` (`Exit`) inside a function that a host function
-calls back leaves that function's frame on the call stack (known finding K6), and the caller's next
-non-local capture runs under it -/
-theorem abort_in_callback_reaches_capture_panic :
+/-- **`abort_in_callback_no_longer_panics`** (was `abort_in_callback_reaches_capture_panic`, K9): the
+same compiled program, which satisfies every hypothesis of `C10b.compile_wf` (so it is `Bytecode.WF`),
+in the same run from a fresh machine, no longer reports `panic "closure not found for capture"`: the
+run reports NO error at all, and ends with an empty call stack after 21 dispatched instructions.  The
+`abort` (`Exit`) inside the function that the host function calls back ends only that callee;
+`run_function` pops the call stack back to its entry depth, and the caller's next non-local capture
+runs under the caller's own frame. -/
+theorem abort_in_callback_no_longer_panics :
     ∃ p, compile abortInCallback stdE = .ok p ∧ Bytecode.WF p ∧
       NoEntryRef abortInCallback stdE Gen.recursionLimit p ∧
       ClosureHandlesDistinct abortInCallback stdE Gen.recursionLimit p ∧
-      ∃ e, (run (Prog.ofProgram p) 10000 (VmState.fresh {})).2 = some e ∧
-        e.kind = .panic "closure not found for capture" := by
+      (run (Prog.ofProgram p) 10000 (VmState.fresh {})).2 = none ∧
+      (run (Prog.ofProgram p) 10000 (VmState.fresh {})).1.frames = [] ∧
+      (run (Prog.ofProgram p) 10000 (VmState.fresh {})).1.dispatches = 21 := by
   obtain ⟨p, hp, _, _, h3, h4, h5⟩ := ac_hyps
   refine ⟨p, hp, h5, h3, h4, ?_⟩
-  have h := ac_panics_check
+  have h := ac_ends_check
   rw [hp] at h
-  unfold capturePanics at h
+  unfold endsNormally at h
   dsimp only at h
   split at h
-  · next e he =>
-    refine ⟨e, he, ?_⟩
-    split at h
-    · next w hw => rw [hw]; simp only [beq_iff_eq] at h; rw [h]
-    · cases h
+  · next s' heq =>
+    rw [heq]
+    simp only [Bool.and_eq_true, beq_iff_eq, List.length_eq_zero_iff] at h
+    exact ⟨rfl, h.1, h.2⟩
   · cases h
 
-/-- the statement of stage 3 without a hypothesis on `Exit` -/
+/-- the statement of stage 3 without a hypothesis on `Exit` — OPEN: it was refuted by
+`abortInCallback` before the repair of `run_function`
+(`not_compiled_run_no_capture_panic_Full`, removed); that witness now runs without error
+(`abort_in_callback_no_longer_panics`), and no other counterexample is known.  NOT proved: it needs
+`st_step_Full` (see §3). -/
 def compiled_run_no_capture_panic_Full : Prop :=
   ∀ (m std : Module) (limit : Nat) (p : Program), compile m std limit = .ok p →
     p.bytecode.size < 2 ^ 31 → p.data.size < 2 ^ 32 → NoEntryRef m std limit p →
@@ -164,16 +175,6 @@ def compiled_run_no_capture_panic_Full : Prop :=
     ∀ (n : Nat) (c : Config) (e : RunErr), (run (Prog.ofProgram p) n (VmState.fresh c)).2 = some e →
       rootCause e.kind ≠ .panic "closure not found for capture" ∧
       rootCause e.kind ≠ .panic "upvalue index out of bounds"
-
-theorem not_compiled_run_no_capture_panic_Full : ¬ compiled_run_no_capture_panic_Full := by
-  intro h
-  obtain ⟨p, hp, h1, h2, h3, h4, _⟩ := ac_hyps
-  obtain ⟨p', hp', _, _, _, e, he, hk⟩ := abort_in_callback_reaches_capture_panic
-  rw [hp] at hp'
-  cases hp'
-  have := (h _ _ _ p hp h1 h2 h3 h4 10000 {} e he).1
-  rw [hk] at this
-  exact this rfl
 
 
 /-! ## 2. Stage 1: static facts about compiled programs -/
@@ -243,8 +244,11 @@ theorem compile_nonlocal_in_region {m std : Module} {limit : Nat} {p : Program}
 
 **Missing** (`st_step_Full`): the pass over the 37 branches of `step` (the automation times out on the
 whole function), the two tail instructions, and the fuel induction (`exec_cfi` skeleton).
-`abort_in_callback_reaches_capture_panic` shows that `CapStatic.noExit` (no `abort` in a function or
-closure body that a host function may call back) is necessary. -/
+Before the repair of `run_function`, `abortInCallback` showed that `CapStatic.noExit` (no `abort` in a
+function or closure body that a host function may call back) was necessary.  Now that `run_function`
+restores the call stack whatever the callee did (`C18.run_function_frames`,
+`NoPanicExec.CallSpec`), the hypothesis is probably no longer needed; it is kept because the
+invariant framework of `Lemmas/CaptureRun.lean` was built with it. -/
 
 /-- stage 3 as it can hold: for a program with the static facts `CapStatic` (region-respecting control
 flow, non-colliding handles, no `Exit` in callee code) — NOT proved -/
